@@ -368,6 +368,9 @@ def op_api(req, trace):
                 extra['diff_empty'] or args.get('force')):
             ev.evolve()
             extra['evolved'] = True
+        elif args.get('execute', True) and extra['required']:
+            # what the evolve command does at its simulation gate
+            status = 'rejected'
     except EvolutionException as e:
         status, exc = 'evolution_error', e
     except Exception as e:
